@@ -11,8 +11,11 @@ PROPERTIES = {}
 HOOK_COMMITS = []
 WIP = "check not built yet in this session (work in progress; planned per DESIGN.md)"
 NOT_APPLICABLE = {"C%02d" % i: WIP for i in range(1, 21)}
-NOT_APPLICABLE["C18"] = ("data-race freedom / schedule independence over OS-thread interleavings of std::thread/mutex/condition_variable code: "
-                         "no solver-based engine in this image can execute C++ threads symbolically (CBMC C++ front end stops at libstdc++ headers)")
+NOT_APPLICABLE["C18"] = ("data-race freedom and bit-identical results of shared const objects under concurrent use: the subject is the absence of unsynchronised conflicting "
+                         "memory accesses, which needs happens-before tracking of every access of real threads (ThreadSanitizer territory). The SBV interpreter's cooperative thread "
+                         "model (used for C17) switches threads only at synchronisation operations, so races between them are invisible to it by construction; CBMC's C++ front end stops "
+                         "at the libstdc++ headers; SRE runs pools inline. The schedule-independence of RESULTS is covered where it is decidable: C09 / C10 / C14 configurations with the "
+                         "sequentialised K-worker pool (any assignment of tasks to workers) and C17's thread-model unit")
 SRE_TECH = "bounded symbolic execution of the real code over symbolic reals (LLVM-instrumented libnano, fork per feasible branch), z3 nlsat (fallback: cvc5 on the same SMT-LIB text) decides every obligation"
 SRE_NOTE = ("trusted: clang-14/LLVM-14, symfp pass + symrt runtime (cross-validated against the un-instrumented build on every run), z3 4.8.12 (nlsat) and, for the queries z3 leaves unknown, cvc5 1.0; "
             "assumes real arithmetic (no rounding), scalar -O1 code path, stated input boxes and sizes; inline thread pool and fixed RNG seed")
